@@ -260,4 +260,50 @@ theorem trunc_decMsgLoop (env : Env) (hE : EnvOk env) :
           exact trunc_decMsgLoop env hE fs fds f (j - (enc v).length) i _ n hok hrest h2 (by omega) (by omega)
 end
 
+
+/-- Top-level message: `UnmarshalBebop` on a strict prefix. -/
+theorem trunc_msgBody (env : Env) (hE : EnvOk env) (fs : List (Nat × Val)) (fds : List MsgField) (f k : Nat)
+    (hok : DefOk (.msg fds)) (hw : wtMsg env fds 0 fs) (hsz : vsizeFields fs + 1 < 2^32)
+    (hf : rankFields fs < f) (hk : k < (enc (.msg fs)).length) :
+    decMsgBody (f+1) env true fds ((enc (.msg fs)).take k) = .err := by
+  have hlen : (encFields fs).length + 1 < 2^32 := by rw [length_encFields]; exact hsz
+  have henc : enc (.msg fs) = leBytes 4 ((encFields fs).length + 1) ++ (encFields fs ++ [0]) := by
+    simp [enc]
+  rw [henc] at hk ⊢
+  simp only [List.length_append, length_leBytes, List.length_singleton] at hk
+  by_cases h4 : k < 4
+  · have : ((leBytes 4 ((encFields fs).length + 1) ++ (encFields fs ++ [0])).take k).length < 4 := by
+      rw [length_take_lt _ _ (by simp; omega)]; exact h4
+    simp [decMsgBody, readN_short _ _ this]
+  · rw [take_append_ge _ _ k (by simp; omega)]
+    simp only [decMsgBody, readN_append' true 4 _ _ (length_leBytes 4 _), Res.ok_bind, length_leBytes]
+    have hk' : k - 4 < (encFields fs).length + 1 := by omega
+    have hl2 : ((encFields fs ++ [0]).take (k - 4)).length = k - 4 := by
+      rw [length_take_lt _ _ (by simp; omega)]
+    rw [hl2, trunc_decMsgLoop env hE fs fds f (k - 4) 0 [] (k - 4 + 1) hok hw hf hk' (by omega)]
+    simp
+
+/-- Top-level union: `UnmarshalBebop` on a strict prefix. -/
+theorem trunc_unionBody (env : Env) (hE : EnvOk env) (d : Nat) (v : Val) (brs : List (Nat × Nat)) (m f k : Nat)
+    (hd : d < 256) (hm : brs.lookup d = some m) (hw : wt env (.ref m) v) (hsz : vsize v < 2^32)
+    (hf : rank v < f) (hk : k < (enc (.union d v)).length) :
+    decUnionBody (f+1) env true brs ((enc (.union d v)).take k) = .err := by
+  have hlen : (enc v).length < 2^32 := by rw [length_enc]; exact hsz
+  have henc : enc (.union d v) = leBytes 4 (enc v).length ++ (UInt8.ofNat d :: enc v) := by
+    simp [enc]
+  rw [henc] at hk ⊢
+  simp only [List.length_append, length_leBytes, List.length_cons] at hk
+  by_cases h4 : k < 4
+  · have : ((leBytes 4 (enc v).length ++ (UInt8.ofNat d :: enc v)).take k).length < 4 := by
+      rw [length_take_lt _ _ (by simp; omega)]; exact h4
+    simp [decUnionBody, readN_short _ _ this]
+  · rw [take_append_ge _ _ k (by simp; omega)]
+    simp only [decUnionBody, readN_append' true 4 _ _ (length_leBytes 4 _), Res.ok_bind, length_leBytes]
+    by_cases h5 : k - 4 = 0
+    · simp [h5]
+    · obtain ⟨j, hj⟩ : ∃ j, k - 4 = j + 1 := ⟨k - 5, by omega⟩
+      simp only [hj, List.take_succ_cons, toNat_ofNat_lt d hd, hm]
+      rw [trunc_dec env hE v (.ref m) f j hw hf (by omega)]
+      simp
+
 end Bebop
